@@ -1,0 +1,11 @@
+//go:build verif
+
+// Machine-checked contracts for this package (comment-only; compiled only under the
+// build tag `verif`, where it still contains no code). Checked by /verif/govc.
+package keeper
+
+// ---- C15: supply ---------------------------------------------------------------------------------
+// Staking rewards are Eden / EdenB, which live on the commitment ledger only: nothing reaches the bank.
+//@ func (Keeper).UpdateStakersRewards
+//@ forall d Str
+//@ mints C15/staking-rewards-mint-nothing-on-the-bank: false
